@@ -11,7 +11,7 @@ import re
 import vf
 
 META = {
-    "text": "23 theorems (Coq, no axioms). FULL, for every event sequence with adversarial peers (model of the BlockFetcher+"
+    "text": "25 theorems (Coq, no axioms). FULL, for every event sequence with adversarial peers (model of the BlockFetcher+"
             "BlockProcessor loop): blocks handed to the chain service have heights ancestor+1, +2, ... (no gap, no duplicate), each "
             "is the block the hash list names and a child of the previous one (first: of the ancestor); success stop only for the acknowledged "
             "target and at most once; every error leaves the loop; a stale AddBlockRsp can only stop the session; the retry head is always "
@@ -268,6 +268,13 @@ def gen_real_cases(ctx):
                           "fetch": 2, "hashreq": 4, "peers": [{"chain": "remote", "mode": "ok", "after": 0}] * 2, "lieanc": -1,
                           "second": True, "staleadd": False, "timeoutms": 2000,
                           "hftimeoutms": T, "hashk": k, "hashmode": mode, "hashdelayms": d})
+    # the anchor list stops above genesis and the peer keeps answering GetSyncAncestor with ancestors below the lowest anchor (ignored by
+    # the finder) every timeout/3: the wait has ONE deadline, the session must end with the timeout error within 3 timeouts
+    for _ in range(1 if quick else 6):
+        rl = rng.randrange(8, 13)
+        cases.append({"common": rng.randrange(2, 5), "locallen": rng.randrange(5, 8), "remotelen": rl, "target": rl, "spliceat": 0,
+                      "fullscan": False, "fetch": 2, "hashreq": 3, "peers": [{"chain": "remote", "mode": "ok", "after": 0}], "lieanc": -1,
+                      "second": True, "staleadd": False, "timeoutms": 500, "ancflood": 14})
     # two sessions on one Syncer: in the second one a poisoned copy carrying the FIRST session's sequence number precedes every
     # sequenced response (ancestor / hash-by-number / hashes / chunks / finder result / close / stop)
     for _ in range(4 if quick else 40):
@@ -317,7 +324,10 @@ def real_predicate(c, o):
     s1 = o["s1"]
     if s1["stop"] == "skipped":
         return bad
-    honest = all(p["mode"] in ("ok", "slow") for p in c["peers"]) and c["spliceat"] == 0 and c["lieanc"] == -1 and not c.get("hashk")
+    if c.get("ancflood") and s1["started"] and s1["stop"] != "hang":
+        if s1["stop"] == "ok" or s1["durms"] > 3 * c["timeoutms"]:
+            bad.append(("s1:ancestor-wait-not-bounded-by-one-timeout", {"stop": s1["stop"], "durms": s1["durms"], "timeoutms": c["timeoutms"]}))
+    honest = all(p["mode"] in ("ok", "slow") for p in c["peers"]) and c["spliceat"] == 0 and c["lieanc"] == -1 and not c.get("hashk") and not c.get("ancflood")
     # a wall-clock timeout of the finder / fetch timers on a loaded machine is not a property failure
     timed_out = "imeout" in s1["stop"]
     if honest and s1["started"] and s1["stop"] != "ok" and not timed_out:
